@@ -45,7 +45,8 @@ type rendCall struct {
 
 // tracedRenderer is a Destination that forwards to a Renderer and writes one event per call.
 type tracedRenderer struct {
-	rd *render.Renderer
+	via ivg.Destination // non-nil: calls are applied to this wrapper around rd
+	rd  *render.Renderer
 	z  *RecRaster
 	w  *Writer
 	n  int
@@ -56,6 +57,10 @@ type tracedRenderer struct {
 // viaRasterLogger makes the next traced Renderers talk to their recording rasteriser through
 // raster.RasterizerLogger (a pass-through that must not change anything); stdout is discarded.
 var viaRasterLogger bool
+
+// viaDestLogger: the calls reach the next traced Renderers through ivg.DestinationLogger (Alt by turns), a pass-through
+// that must change nothing; stdout is discarded.
+var viaDestLogger int
 
 // viaCopy makes the next traced Renderers by-value copies of a template Renderer whose rasteriser
 // was set (and which has painted one flat path) before the copy was taken: a Renderer is a plain
@@ -95,6 +100,9 @@ func newTracedRenderer(w *Writer, id string, rect image.Rectangle) *tracedRender
 		cp := *tmpl
 		t.rd = &cp
 	}
+	if viaDestLogger != 0 {
+		t.via = &ivg.DestinationLogger{Destination: t.rd, Alt: viaDestLogger == 2}
+	}
 	w.Emit(rendSrc{Ev: "rsrc", ID: id, Rect: [4]int{rect.Min.X, rect.Min.Y, rect.Max.X, rect.Max.Y}})
 	return t
 }
@@ -104,7 +112,11 @@ func (t *tracedRenderer) do(c Call) { t.doHint(c, nil) }
 func (t *tracedRenderer) doHint(c Call, hint *arcHint) {
 	before := t.rd.VerifState()
 	n0 := len(t.z.Calls)
-	apply(t.rd, &c)
+	if t.via != nil {
+		apply(t.via, &c)
+	} else {
+		apply(t.rd, &c)
+	}
 	after := t.rd.VerifState()
 	ev := rendCall{Ev: "call", Call: c, Rz: append([]RCall{}, t.z.Calls[n0:]...), Sel: [2]int{int(after.CSel), int(after.NSel)},
 		Dc: [][5]int{}, Dn: [][3]int{}, Lod: fs(after.Lod0, after.Lod1), Dis: b2i(after.Disabled), Hint: hint}
@@ -257,6 +269,7 @@ func driveRend(args []string) error {
 					stats[fam+".nondyadic_scale"]++
 				}
 				viaRasterLogger = i%5 == 4
+				viaDestLogger = []int{0, 0, 0, 1, 0, 0, 2}[i%7]
 				o := &progOpts{maxPaths: 3, maxRun: 4, lattice: true, arcs: fam == "arcs" || i%4 == 0}
 				prog := genProgram(rng, o)
 				prog[0] = resetCall(cfg.vb, defaultPal())
@@ -294,7 +307,27 @@ func driveRend(args []string) error {
 				}
 			}
 			viaRasterLogger = false
+			viaDestLogger = 0
 			if fam == "geometry" {
+				// a zero-radius arc (a straight line) between a curve and a smooth operation of the same degree: the smooth
+				// operation starts from the pen, the curve's control point is forgotten
+				for ci, cfg := range []rendCfg{cfgs[0], cfgs[7]} {
+					k := 0
+					for _, curve := range []Call{mkCall("AbsQuadTo", 3, -4, 6, 1), mkCall("RelCubeTo", 1, -3, 4, -3, 5, 0), mkCall("RelSmoothCubeTo", 2, 2, 4, 0), mkCall("RelSmoothQuadTo", 3, 1)} {
+						for _, arc := range []Call{mkCall("AbsArcTo", 0, 4, 0.125, 9, 3), mkCall("RelArcTo", 3, 0, 0, 2, 2), mkCall("RelArcTo", 0, 0, 0.5, 1, -1)} {
+							for _, smooth := range []Call{mkCall("RelSmoothQuadTo", 3, 2), mkCall("AbsSmoothQuadTo", 12, 8), mkCall("RelSmoothCubeTo", 1, 3, 3, 3), mkCall("AbsSmoothCubeTo", 14, 2, 15, 6)} {
+								k++
+								a := arc
+								a.Fl = []int{k % 2, k / 2 % 2}
+								prog := []Call{resetCall(cfg.vb, defaultPal()), mkCall("StartPath", 1, 2), curve, a, smooth, mkCall("ClosePathEndPath")}
+								t := newTracedRenderer(sh.Next(), fmt.Sprintf("curve-zeroarc-smooth/%d/%d", ci, k), cfg.rect)
+								runProg(t, prog)
+								stats["geometry.programs"]++
+								stats["geometry.calls"] += t.n
+							}
+						}
+					}
+				}
 				// close-and-move operations whose target coincides with the pen, or with the start of the sub-path
 				for ci, cfg := range []rendCfg{cfgs[0], cfgs[7], cfgs[2]} {
 					for v := 0; v < 6; v++ {
@@ -839,6 +872,11 @@ func driveEllipses(sh *Shards, n int, stats map[string]int) {
 		}
 		if count%5 == 0 {
 			c.F[0] = f32j(-g(crx)) // a negative radius means its absolute value
+		}
+		if count%3 == 1 {
+			// the same rotation spelled with another number of whole turns (negative, or beyond one turn)
+			c.F[2] = f32j(c.F[2].float() + []float32{-1, 1, -2, 3}[count/3%4])
+			stats["ellipses.rotation_other_turns"]++
 		}
 		c.Fl = []int{b2i(large), b2i(sweep)}
 		t.doHint(c, hint)
